@@ -202,15 +202,15 @@ prop("C17", "exploration",
      "hashing and transmission, a quarter of the files being symbolic links to files outside the directory, with or without transport faults (refused, "
      "lost answer, partial, cut, flipped byte); oracle = after a quiet period the current version of every name was transmitted in full, no version is delivered twice "
      "without a failed verdict, no arrival is a mixture (arrival monitor), ineligible files neither transmitted nor touched; non-trivial = a change made "
-     "while requests were outstanding. Validation-retry histories (W1, TestC17Retry): minimum age 20 s / 2 min / 10 min, a byte flipped in about every second data "
-     "request, files rewritten or touched between a transmission and its verdict; oracle = every part on the wire was read from a file that had reached the "
+     "while requests were outstanding. Validation-retry histories (W1, TestC17Retry): minimum age 20 s / 2 min / 10 min / 0, a byte flipped in about every second data "
+     "request, files rewritten, touched or (minimum age 0) truncated to zero bytes between a transmission and its verdict; oracle = no part on the wire belongs to an empty file, every part on the wire was read from a file that had reached the "
      "minimum age when it was transmitted (its recorded modification time against the simulated clock), and the current version is transmitted in full once "
      "the directory was left alone for the minimum age plus several scan cycles; non-trivial = a file changed after a corrupted transmission of it",
      [dict(pkg="storex", test="TestC17Scan", world="W0", quick=6000, thorough=200000, required_classes=["symlink-to-file", "disabled-at-root", "file-time-after-scan-start"]),
       dict(pkg="stagex", test="TestC17Sim", world="W1", quick=1000, thorough=40000, per_proc=60, shrink_runs=150,
            required_classes=["replaced-by-older-file", "change-during-transmission", "symlink-to-file-as-source"]),
       dict(pkg="stagex", test="TestC17Retry", world="W1", quick=400, thorough=16000, per_proc=60, shrink_runs=150,
-           required_classes=["changed-after-corrupt-transmission", "file-touched", "file-rewritten"])],
+           required_classes=["changed-after-corrupt-transmission", "file-touched", "file-rewritten", "file-truncated-to-empty"])],
      ["file ages are 5 min / 3 h against a minimum age of 0 / 2 h, so the wall clock cannot flip a verdict",
       "for a symlink the statement does not say whose age counts; without link following the link's own time is used, with link following the target's",
       "the history unit runs in the simulation world (real Broker, store, cache, queue, payload, stage; harness-owned transport); whether a version that "
